@@ -219,8 +219,36 @@ theorem foldl_balance_spec (parts : String → Nat) : ∀ (ts : List String) (g 
       · split <;> rfl
     exact ⟨a1.trans (balance_shape parts t g), a2.trans (balance_keys parts t g), a3.trans hep⟩
 
-/-- **StreamDeleted** (refused when the epoch is stale: the group stays as it was on both sides). -/
-theorem deleted_refines (parts : String → Nat) (cfg : Metadata.Cfg) (hcfg : cfg.emptyHeapNoEpoch = false)
+/-- Under the C12 invariant "some member is subscribed to `s`" (what the metadata model tests) is
+"the heap of `s` is not empty" (what `StreamDeleted` tests). -/
+theorem subscribed_iff_heap (parts : String → Nat) {lg : Metadata.Group} {g : Groups.Group} (s : String)
+    (hinv : Inv parts g) (h : Refines lg g) (ids : List String) (hs : sget g.subs s = some ids) :
+    Metadata.subscribed lg s = !ids.isEmpty := by
+  have hsub : subsOf' g.subs s = ids := by simp [subsOf', hs]
+  unfold Metadata.subscribed
+  rw [h.members]
+  cases hids : ids with
+  | nil =>
+    simp only [List.isEmpty_nil, Bool.not_true]
+    rw [Bool.eq_false_iff]
+    intro hany
+    obtain ⟨x, hx, hx2⟩ := List.any_eq_true.1 hany
+    have hx2' : s ∈ x.2 := by simpa using hx2
+    rcases hinv.b2 x hx s hx2' with h1 | ⟨_, h2⟩
+    · rw [hsub, hids] at h1; cases h1
+    · cases h2
+  | cons i rest =>
+    simp only [List.isEmpty_cons, Bool.not_false]
+    have hi : i ∈ subsOf' g.subs s := by rw [hsub, hids]; simp
+    rcases hinv.b1 s i hi with ⟨x, hx, _, hx2⟩ | ⟨_, h2⟩
+    · exact List.any_eq_true.2 ⟨x, hx, by simpa using hx2⟩
+    · cases h2
+
+/-- **StreamDeleted** (refused when the epoch is stale: the group stays as it was on both sides).
+The metadata model's switch must say what the C12 model does with an empty heap (regenerated fact
+`Gen.Groups.emptyHeapKeepsEpoch`); the statement holds for either value of that fact. -/
+theorem deleted_refines (parts : String → Nat) (cfg : Metadata.Cfg)
+    (hcfg : cfg.emptyHeapNoEpoch = Gen.Groups.emptyHeapKeepsEpoch)
     {lg : Metadata.Group} {g : Groups.Group} (s : String) (e : Nat)
     (hinv : Inv parts g) (h : Refines lg g) :
     Refines (Metadata.notifyGroup cfg s e lg) (Groups.applyOp parts g (.deleted s e)) := by
@@ -244,7 +272,20 @@ theorem deleted_refines (parts : String → Nat) (cfg : Metadata.Cfg) (hcfg : cf
       have hc : lg.subKeys.contains s = true := by
         have : s ∈ keys g := by unfold keys; rw [mem_keys_iff, hs]; rfl
         simpa using (h.keys s).2 this
-      simp only [hc, if_true, Bool.false_and, Bool.false_eq_true, if_false]
+      have hkeys : ∀ x, x ∈ lg.subKeys.filter (fun y => decide (y ≠ s)) ↔ x ∈ (sdel g.subs s).map (·.1) := by
+        intro x
+        rw [mem_keys_sdel, List.mem_filter, h.keys x]
+        unfold keys
+        constructor
+        · rintro ⟨h1, h2⟩; exact ⟨of_decide_eq_true h2, h1⟩
+        · rintro ⟨h1, h2⟩; exact ⟨h2, decide_eq_true h1⟩
+      rw [subscribed_iff_heap parts s hinv h ids hs]
+      simp only [hc, if_true, Bool.not_not]
+      by_cases hb : (Gen.Groups.emptyHeapKeepsEpoch && ids.isEmpty) = true
+      · -- empty heap: both sides only drop the heap key
+        simp only [hb, if_true]
+        exact ⟨h.members, hkeys, rfl⟩
+      simp only [hb, Bool.false_eq_true, if_false]
       refine ⟨?_, ?_, rfl⟩
       · show lg.members.map _ = shape (Groups.Group.members (List.foldl _ _ _))
         rw [(foldl_balance_spec parts _ _).1, h.members]
@@ -268,12 +309,7 @@ theorem deleted_refines (parts : String → Nat) (cfg : Metadata.Cfg) (hcfg : cf
       · intro x
         show x ∈ lg.subKeys.filter _ ↔ x ∈ keys (List.foldl _ _ _)
         rw [(foldl_balance_spec parts _ _).2.1]
-        show _ ↔ x ∈ (sdel g.subs s).map (·.1)
-        rw [mem_keys_sdel, List.mem_filter, h.keys x]
-        unfold keys
-        constructor
-        · rintro ⟨h1, h2⟩; exact ⟨of_decide_eq_true h2, h1⟩
-        · rintro ⟨h1, h2⟩; exact ⟨h2, decide_eq_true h1⟩
+        exact hkeys x
 
 /-- **newConsumerGroup**: a group built from a protobuf (create op or snapshot). -/
 theorem mkGroup_refines (parts : String → Nat) (gp : Metadata.GroupP) (r : Bool)
